@@ -30,13 +30,13 @@ def term_pairs(r, thorough):
     """yields (left, right) term descriptors: ('lit', value, spelling) | ('equ', value, spelling, order) | ('label', which)"""
     lits = [0, 1, 2, 5, 127, 128, 255, 256, 1000, 32767, 32768, 65535]
     out = []
-    for _ in range(40 if thorough else 10):
+    for _ in range(160 if thorough else 10):
         a, b = r.choice(lits), r.choice(lits)
         out.append((("lit", a), ("lit", b)))
         out.append((("equ", a, r.choice(["before", "after"])), ("lit", b)))
         out.append((("lit", a), ("equ", b, r.choice(["before", "after"]))))
         out.append((("equ", a, r.choice(["before", "after"])), ("equ", b, r.choice(["before", "after"]))))
-    for _ in range(24 if thorough else 8):       # negative EQU constants: sign handling and truncating division
+    for _ in range(96 if thorough else 8):       # negative EQU constants: sign handling and truncating division
         a, b = -r.choice([1, 2, 3, 7, 100, 129, 255, 1000]), r.choice([1, 2, 3, 4, 7, 256])
         out.append((("equ", a, r.choice(["before", "after"])), ("lit", b)))
         out.append((("lit", b), ("equ", a, r.choice(["before", "after"]))))
@@ -119,7 +119,7 @@ def gen_cases(tier, seed):
         # single symbols (no operator) in every position, every EQU spelling
         for v in ([0, 5, 200, 255] + ([256, 0x1234, 65535] if pos not in WIDTH else [])):
             for order in ("before", "after"):
-                for _ in range(3 if thorough else 1):
+                for _ in range(8 if thorough else 1):
                     lines, target, expr, equs, mn = build(pos, None, "", None, r.choice(ORGS) if pos != "rmb" else 0x1000, r, single=("equ", v, order))
                     k += 1
                     yield {"id": "%s/sym/%s/%d" % (pos, order, k), "pos": pos, "lines": lines, "target": target, "left": ("equ", v, order), "right": None, "op": "",
